@@ -366,6 +366,19 @@ def main():
     except Shape as e:
         print("translate_job_tables: %s" % e)
         return 1
+    # dispatch table for the driver's replay of Config calls (harness/drv_job.cc includes it): one line per Config method the tables bind
+    disp = set()
+    for e in d["argv"] + d["json"]:
+        t = e["target"]
+        if t[0] == "config":
+            disp.add((t[1], t[2], 0 if e["kind"] == "bare" else 1))
+    inc = "// GENERATED by harness/translate_job_tables.py from the option tables of qpdf: Config methods bound by argv or job JSON.\n" + \
+          "".join("D%d(%s, %s)\n" % (a, o, m) for o, m, a in sorted(disp))
+    ip = os.path.join(VERIF, "harness", "gen_job_dispatch.inc")
+    if not os.path.exists(ip) or open(ip).read() != inc:
+        with open(ip, "w") as f:
+            f.write(inc)
+        os.utime(os.path.join(VERIF, "harness", "drv_job.cc"))   # the driver is rebuilt by the next common.build_drv()
     gdir = os.path.join(VERIF, "coq", "Gen")
     os.makedirs(gdir, exist_ok=True)
     p = os.path.join(gdir, "JobTables.v")
